@@ -303,6 +303,7 @@ class _Scope:
 
     def __init__(self, fn):
         self.fn = fn
+        self.strc = lambda n: n.value if isinstance(n, ast.Constant) and type(n.value) is str else None
         self.assigned = {}
         self.unique_of = {}      # name -> ("values" | "counts", array name)
         for n in _own_walk(fn):
@@ -359,11 +360,17 @@ def _classify(sc, node):
         n = sc.deref(n)
         if (_is_call(n, "Counter") or _is_call(n, "collections", "Counter")) and len(n.args) == 1 and not n.keywords:
             a = n.args[0]
+            if isinstance(a, ast.Call) and isinstance(a.func, ast.Attribute) and a.func.attr == "tolist" \
+                    and not a.args and not a.keywords:
+                a = a.func.value
+            # flattening does not change the multiset of the values: np.ravel(a), a.ravel(), a.flatten()
+            if _is_call(a, "np", "ravel") and len(a.args) == 1 and not a.keywords:
+                a = a.args[0]
+            elif isinstance(a, ast.Call) and isinstance(a.func, ast.Attribute) and a.func.attr in ("ravel", "flatten") \
+                    and not a.args and not a.keywords:
+                a = a.func.value
             if isinstance(a, ast.Name):
                 return a.id
-            if isinstance(a, ast.Call) and isinstance(a.func, ast.Attribute) and a.func.attr == "tolist" \
-                    and not a.args and not a.keywords and isinstance(a.func.value, ast.Name):
-                return a.func.value.id
         return None
 
     def uniq(n, role):
@@ -417,15 +424,14 @@ def _classify(sc, node):
     if (_is_call(num, "np", "count_nonzero") or _is_call(num, "np", "sum")) and len(num.args) == 1 and not num.keywords:
         c = num.args[0]
         if isinstance(c, ast.Compare) and len(c.ops) == 1 and isinstance(c.ops[0], ast.Eq) and isinstance(c.left, ast.Name) \
-                and isinstance(c.comparators[0], ast.Constant) and type(c.comparators[0].value) is str \
-                and _same_arr(c.left.id, r):
-            return ("nanshare", c.left.id, c.comparators[0].value)
+                and sc.strc(c.comparators[0]) is not None and _same_arr(c.left.id, r):
+            return ("nanshare", c.left.id, sc.strc(c.comparators[0]))
     if isinstance(num, ast.Call) and isinstance(num.func, ast.Attribute) and num.func.attr == "get" and len(num.args) == 2 \
-            and not num.keywords and isinstance(num.args[0], ast.Constant) and type(num.args[0].value) is str \
+            and not num.keywords and sc.strc(num.args[0]) is not None \
             and isinstance(num.args[1], ast.Constant) and num.args[1].value == 0 and type(num.args[1].value) is int:
         arr = counter_of(num.func.value)
         if arr and _same_arr(arr, r):
-            return ("nanshare", arr, num.args[0].value)
+            return ("nanshare", arr, sc.strc(num.args[0]))
     return None
 
 
@@ -455,6 +461,14 @@ def _is_text_array(cls, fns, fn, name):
     v = sc.value(name)
     if v is not None and _is_astype_str(v):
         return True
+    # assigned once from a method of the class whose every `return` is <..>.astype(str)
+    if isinstance(v, ast.Call) and isinstance(v.func, ast.Attribute) and isinstance(v.func.value, ast.Name) \
+            and v.func.value.id in ("self", "cls", cls.name):
+        ms = [g for g in fns if g.name == v.func.attr]
+        if len(ms) == 1:
+            rets = [r for r in _own_walk(ms[0]) if isinstance(r, ast.Return)]
+            if rets and all(r.value is not None and _is_astype_str(r.value) for r in rets):
+                return True
     for n in _own_walk(fn):
         if isinstance(n, ast.For) and isinstance(n.target, ast.Tuple):
             idx = [i for i, e in enumerate(n.target.elts) if isinstance(e, ast.Name) and e.id == name]
@@ -470,32 +484,75 @@ def _is_text_array(cls, fns, fn, name):
     return False
 
 
-def _check_guard(cls, fns, fn, boolop, arr):
-    """the conjunction must be what decides the emission, and its statistics must be those of the text column:
-    either it is the test of the `if` that stores the array, or it is what a predicate method returns and that
-    predicate, applied to the array, is the test of the `if` that stores it"""
+_NEG = {"CLt": "CGe", "CLe": "CGt", "CGt": "CLe", "CGe": "CLt", "CEq": "CNe", "CNe": "CEq"}
+
+
+def _blocks(fn):
+    """every statement list of the function (not descending into nested definitions)"""
+    stack = [fn.body]
+    while stack:
+        body = stack.pop()
+        yield body
+        for st in body:
+            for fld in ("body", "orelse", "finalbody"):
+                sub = getattr(st, fld, None)
+                if isinstance(sub, list) and sub and not isinstance(st, (ast.FunctionDef, ast.AsyncFunctionDef, ast.ClassDef)):
+                    stack.append(sub)
+            for h in getattr(st, "handlers", []) or []:
+                stack.append(h.body)
+
+
+def _carries(sc, test, boolop):
+    """does the expression `test` carry the value of `boolop`?  -> +1 (same truth value), -1 (negated), 0 (no)"""
+    sign = 1
+    for _ in range(6):
+        if test is boolop:
+            return sign
+        if isinstance(test, ast.UnaryOp) and isinstance(test.op, ast.Not):
+            sign, test = -sign, test.operand
+        elif _is_call(test, "bool") and len(test.args) == 1 and not test.keywords:
+            test = test.args[0]
+        elif isinstance(test, ast.Name) and sc.value(test.id) is not None:
+            test = sc.value(test.id)
+        else:
+            return 0
+    return 0
+
+
+def _check_guard(cls, fns, fn, boolop, keep_when_true, arr):
+    """the rule must be what decides the emission, and its statistics must be those of the text column.
+    Accepted: (a) `if <rule says keep>: store(arr)`; (b) `if <rule says degenerate>: ...; continue` followed, in the
+    same block, by store(arr) (or with the store in the else branch); (c) a predicate method whose single `return`
+    carries the keep verdict and whose only call, applied to the array, is the test of form (a)."""
     if arr is None:
         raise Refuse("keep rule: cannot name the array whose statistics are tested")
-    for n in _own_walk(fn):
-        if isinstance(n, ast.If) and n.test is boolop:
-            if not _stores(n.body, arr):
-                raise Refuse("keep rule: the guarded statement does not store the tested array %r" % arr)
+    sc = _Scope(fn)
+    for body in _blocks(fn):
+        for i, st in enumerate(body):
+            if not isinstance(st, ast.If):
+                continue
+            s = _carries(sc, st.test, boolop)
+            if s == 0:
+                continue
+            keep_branch = (s > 0) == keep_when_true
+            if keep_branch:
+                ok = _stores(st.body, arr)
+            else:
+                skips = bool(st.body) and isinstance(st.body[-1], ast.Continue) and not _stores(st.body, arr)
+                ok = (skips and _stores(body[i + 1:], arr)) or (not _stores(st.body, arr) and _stores(st.orelse, arr))
+            if not ok:
+                raise Refuse("keep rule: the statement guarded by the rule does not store the tested array %r" % arr)
             if not _is_text_array(cls, fns, fn, arr):
                 raise Refuse("keep rule: the tested array %r is not <transformed>.astype(str)" % arr)
             return
-    # predicate form:  def M(self, arr): ... return [bool(] <conjunction> [)]
+    # predicate form
     rets = [n for n in _own_walk(fn) if isinstance(n, ast.Return)]
-    ok_ret = False
-    for r in rets:
-        v = r.value
-        if _is_call(v, "bool") and len(v.args) == 1 and not v.keywords:
-            v = v.args[0]
-        if v is boolop:
-            ok_ret = True
     params = [a.arg for a in fn.args.args]
-    if not ok_ret or len(rets) != 1 or arr not in params:
-        raise Refuse("keep rule: the conjunction is neither the guard of the storing `if` nor the result of a predicate "
-                     "on the array")
+    if len(rets) != 1 or arr not in params or rets[0].value is None:
+        raise Refuse("keep rule: the rule is neither the guard of the storing `if` nor the result of a predicate on the array")
+    s = _carries(sc, rets[0].value, boolop)
+    if s == 0 or (s > 0) != keep_when_true:
+        raise Refuse("keep rule: the predicate does not return the keep verdict")
     pos = params.index(arr) - (1 if params and params[0] in ("self", "cls") else 0)
     sites = []
     for g in fns:
@@ -521,24 +578,31 @@ def _check_guard(cls, fns, fn, boolop, arr):
 
 def extract_constants(src):
     """keep/drop rule, numeric parse and preset separator of class FeatureTransformerGeneric.
-    Every item is searched in all methods of the class and must be found exactly once (else Refuse)."""
+    Three independent items; each is searched in all methods of the class.  An item whose code shape is not recognised
+    is reported in "unread" (the caller then emits the specification's value, marked as not read from the source: that
+    piece of glue is held by the correspondence only).  A recognised shape yields the operators / constants of the
+    source, whatever they are."""
     mod = ast.parse(src)
     cls = _find_class(mod, "FeatureTransformerGeneric")
     fns = _functions_of(cls)
-    gv = _find_method(cls, "get_vals")
-    _find_method(cls, "__init__")
-    _find_method(cls, "construct_new_features")
 
-    # numeric constants: class-level NAME = <number>, and self.<a> = <number> | self.NAME | cls.NAME | Class.NAME
-    class_consts = {}
-    for n in cls.body:
-        tg = val = None
-        if isinstance(n, ast.Assign) and len(n.targets) == 1:
-            tg, val = n.targets[0], n.value
-        elif isinstance(n, ast.AnnAssign) and n.value is not None:
-            tg, val = n.target, n.value
-        if isinstance(tg, ast.Name):
-            class_consts.setdefault(tg.id, []).append(val)
+    def single_consts(body):
+        d = {}
+        for n in body:
+            tg = val = None
+            if isinstance(n, ast.Assign) and len(n.targets) == 1:
+                tg, val = n.targets[0], n.value
+            elif isinstance(n, ast.AnnAssign) and n.value is not None:
+                tg, val = n.target, n.value
+            elif isinstance(n, ast.AugAssign):
+                tg, val = n.target, None
+            if isinstance(tg, ast.Name):
+                d.setdefault(tg.id, []).append(val)
+        return d
+
+    class_consts = single_consts(cls.body)
+    mod_consts = single_consts(mod.body)
+    rebound = {nm for n in ast.walk(mod) if isinstance(n, ast.Global) for nm in n.names}
     self_assign = {}
     for fn in fns:
         for n in ast.walk(fn):
@@ -559,143 +623,182 @@ def extract_constants(src):
             return lit_of_text(ast.get_source_segment(src, node))
         return None
 
+    def module_value(name):
+        v = mod_consts.get(name, [])
+        if len(v) == 1 and v[0] is not None and name not in rebound:
+            return v[0]
+        return None
+
     def class_const(name):
         v = class_consts.get(name, [])
-        if len(v) != 1 or number(v[0]) is None:
+        if len(v) != 1 or v[0] is None:
+            raise Refuse("class attribute %s is not one constant" % name)
+        k = number(v[0])
+        if k is None and isinstance(v[0], ast.Name) and module_value(v[0].id) is not None:
+            k = number(module_value(v[0].id))
+        if k is None:
             raise Refuse("class attribute %s is not one numeric constant" % name)
-        return number(v[0])
+        return k
 
-    def constant(node):
+    def constant(node, local=()):
+        """numeric literal | module-level NAME bound once to a literal | self.<attr> assigned once in the class to one of
+        these | class-level constant"""
         k = number(node)
         if k is not None:
             return k
+        if isinstance(node, ast.Name) and node.id not in local and module_value(node.id) is not None:
+            return number(module_value(node.id))
         a = _self_attr(node)
         if a is not None:
             if a in self_assign:
                 v = self_assign[a]
                 if len(v) != 1 or v[0] is None:
                     raise Refuse("self.%s is not assigned exactly once in the class" % a)
-                k = number(v[0])
-                if k is not None:
-                    return k
                 inner = v[0]
                 if isinstance(inner, ast.Attribute) and isinstance(inner.value, ast.Name) \
                         and inner.value.id in ("self", "cls", cls.name):
                     if inner.attr in self_assign:
                         raise Refuse("self.%s refers to a mutable attribute" % a)
                     return class_const(inner.attr)
-                raise Refuse("self.%s is not a numeric constant" % a)
+                k = constant(inner) if not _self_attr(inner) else None
+                if k is None:
+                    raise Refuse("self.%s is not a numeric constant" % a)
+                return k
             return class_const(a)
         if isinstance(node, ast.Attribute) and isinstance(node.value, ast.Name) and node.value.id in ("cls", cls.name):
             return class_const(node.attr)
         return None
 
-    # preset separator: exactly one <x>.split('<one char>') in the class
-    seps = [n.args[0].value for fn in fns for n in ast.walk(fn)
-            if isinstance(n, ast.Call) and isinstance(n.func, ast.Attribute) and n.func.attr == "split"
-            and len(n.args) == 1 and not n.keywords and isinstance(n.args[0], ast.Constant)
-            and type(n.args[0].value) is str]
-    if len(seps) != 1 or len(seps[0]) != 1:
-        raise Refuse("preset separator: expected exactly one .split('<one char>') in the class, found %r" % (seps,))
-
-    # keep rule: the one conjunction of three comparisons over (distinct count, majority share, nan share)
-    found = []
-    for fn in fns:
-        sc = _Scope(fn)
-        for n in _own_walk(fn):
-            if not (isinstance(n, ast.BoolOp) and isinstance(n.op, ast.And) and len(n.values) == 3):
-                continue
-            rule, arrs, nan_lit, ok = {}, [], None, True
-            for c in n.values:
-                if not (isinstance(c, ast.Compare) and len(c.ops) == 1 and type(c.ops[0]) in _CMP):
-                    ok = False
-                    break
-                op = _CMP[type(c.ops[0])]
-                lq, rq = _classify(sc, c.left), _classify(sc, c.comparators[0])
-                if lq is not None and rq is None:
-                    q, kn = lq, c.comparators[0]
-                elif rq is not None and lq is None:
-                    q, kn, op = rq, c.left, _FLIP[op]
-                else:
-                    ok = False
-                    break
-                k = constant(kn)
-                if k is None or q[0] in rule:
-                    ok = False
-                    break
-                rule[q[0]] = (op, k)
-                arrs.append(q[1])
-                if q[0] == "nanshare":
-                    nan_lit = q[2]
-            if ok and set(rule) == {"distinct", "majority", "nanshare"} \
-                    and all(_same_arr(x, y) for x in arrs for y in arrs):
-                names = sorted({x for x in arrs if x != ANY})
-                found.append((rule, nan_lit, fn, n, names[0] if len(names) == 1 else None))
-    if len(found) != 1:
-        raise Refuse("keep rule: expected exactly one conjunction `distinct <op> k and majority share <op> k and nan share "
-                     "<op> k` over one rendered array in class %s, found %d" % (cls.name, len(found)))
-    rule, nan_lit, rule_fn, rule_node, rule_arr = found[0]
-    _check_guard(cls, fns, rule_fn, rule_node, rule_arr)
-
-    # get_vals: exactly one <s>.replace('<c>', '') and exactly one `float(x)` / `<number>` choice on emptiness of x
-    reps = [n for n in ast.walk(gv) if isinstance(n, ast.Call) and isinstance(n.func, ast.Attribute) and n.func.attr == "replace"]
-    if len(reps) != 1 or len(reps[0].args) != 2 or reps[0].keywords or not all(
-            isinstance(a, ast.Constant) and type(a.value) is str for a in reps[0].args):
-        raise Refuse("get_vals: expected exactly one <str>.replace('<char>', '')")
-    old, new = reps[0].args[0].value, reps[0].args[1].value
-    if new != "" or len(old) != 1:
-        raise Refuse("get_vals: replace(%r, %r) is not the removal of one character" % (old, new))
-
-    def float_of(n):
-        if _is_call(n, "float") and len(n.args) == 1 and not n.keywords and isinstance(n.args[0], ast.Name):
-            return n.args[0].id
+    def strc(node):
+        if isinstance(node, ast.Constant) and type(node.value) is str:
+            return node.value
+        if isinstance(node, ast.Name) and module_value(node.id) is not None:
+            v = module_value(node.id)
+            if isinstance(v, ast.Constant) and type(v.value) is str:
+                return v.value
         return None
 
-    choices = []
-    for n in ast.walk(gv):
-        if not isinstance(n, ast.IfExp):
-            continue
-        for num_branch, flt_branch, const_when_true in ((n.body, n.orelse, True), (n.orelse, n.body, False)):
-            v = float_of(flt_branch)
-            if number(num_branch) is not None and v is not None:
-                choices.append((n.test, v, num_branch, const_when_true))
-    if len(choices) != 1:
-        raise Refuse("get_vals: expected exactly one `<number> if <x is empty> else float(x)` (or the mirrored form), found %d"
-                     % len(choices))
-    test, var, num_branch, const_when_true = choices[0]
+    out = dict(rule=None, nan_literal=None, strip_char=None, empty_value=None, separator=None, unread={})
 
-    def is_name(n):
-        return isinstance(n, ast.Name) and n.id == var
+    # ---- preset separator: exactly one <x>.split(<one-character string constant>) in the class
+    try:
+        seps = [strc(n.args[0]) for fn in fns for n in ast.walk(fn)
+                if isinstance(n, ast.Call) and isinstance(n.func, ast.Attribute) and n.func.attr == "split"
+                and len(n.args) == 1 and not n.keywords]
+        if len(seps) != 1 or seps[0] is None or len(seps[0]) != 1:
+            raise Refuse("expected exactly one .split(<one-character constant>) in the class, found %r" % (seps,))
+        out["separator"] = seps[0]
+    except Refuse as e:
+        out["unread"]["separator"] = str(e)
 
-    def is_len(n):
-        return _is_call(n, "len") and len(n.args) == 1 and is_name(n.args[0])
+    # ---- keep rule: `distinct op k and majority op k and nan op k` (keep) or its De Morgan dual with `or` (degenerate)
+    try:
+        found = []
+        for fn in fns:
+            sc = _Scope(fn)
+            sc.strc = strc
+            local = set(sc.assigned) | {a.arg for a in fn.args.args}
+            for n in _own_walk(fn):
+                if not (isinstance(n, ast.BoolOp) and len(n.values) == 3):
+                    continue
+                keep_when_true = isinstance(n.op, ast.And)
+                rule, arrs, nan_lit, ok = {}, [], None, True
+                for c in n.values:
+                    if not (isinstance(c, ast.Compare) and len(c.ops) == 1 and type(c.ops[0]) in _CMP):
+                        ok = False
+                        break
+                    op = _CMP[type(c.ops[0])]
+                    lq, rq = _classify(sc, c.left), _classify(sc, c.comparators[0])
+                    if lq is not None and rq is None:
+                        q, kn = lq, c.comparators[0]
+                    elif rq is not None and lq is None:
+                        q, kn, op = rq, c.left, _FLIP[op]
+                    else:
+                        ok = False
+                        break
+                    k = constant(sc.deref(kn), local)
+                    if k is None or q[0] in rule:
+                        ok = False
+                        break
+                    rule[q[0]] = (op if keep_when_true else _NEG[op], k)
+                    arrs.append(q[1])
+                    if q[0] == "nanshare":
+                        nan_lit = q[2]
+                if ok and set(rule) == {"distinct", "majority", "nanshare"} \
+                        and all(_same_arr(x, y) for x in arrs for y in arrs):
+                    names = sorted({x for x in arrs if x != ANY})
+                    found.append((rule, nan_lit, fn, n, keep_when_true, names[0] if len(names) == 1 else None))
+        if len(found) != 1:
+            raise Refuse("expected exactly one rule `distinct <op> k and majority share <op> k and nan share <op> k` (or its "
+                         "negation with `or`) over one rendered array in class %s, found %d" % (cls.name, len(found)))
+        rule, nan_lit, rule_fn, rule_node, kwt, rule_arr = found[0]
+        _check_guard(cls, fns, rule_fn, rule_node, kwt, rule_arr)
+        out["rule"], out["nan_literal"] = rule, nan_lit
+    except Refuse as e:
+        out["unread"]["keep rule"] = str(e)
 
-    def zero(n):
-        return isinstance(n, ast.Constant) and type(n.value) is int and n.value == 0
+    # ---- get_vals: exactly one <s>.replace('<c>', '') and exactly one `float(x)` / `<number>` choice on emptiness of x
+    try:
+        gv = _find_method(cls, "get_vals")
+        reps = [n for n in ast.walk(gv) if isinstance(n, ast.Call) and isinstance(n.func, ast.Attribute) and n.func.attr == "replace"]
+        if len(reps) != 1 or len(reps[0].args) != 2 or reps[0].keywords or not all(strc(a) is not None for a in reps[0].args):
+            raise Refuse("expected exactly one <str>.replace('<char>', '')")
+        old, new = strc(reps[0].args[0]), strc(reps[0].args[1])
+        if new != "" or len(old) != 1:
+            raise Refuse("replace(%r, %r) is not the removal of one character" % (old, new))
 
-    def empty_str(n):
-        return isinstance(n, ast.Constant) and n.value == ""
+        def float_of(n):
+            if _is_call(n, "float") and len(n.args) == 1 and not n.keywords and isinstance(n.args[0], ast.Name):
+                return n.args[0].id
+            return None
 
-    # does `test` being true mean "x is empty"?
-    empty_when_true = None
-    if isinstance(test, ast.Compare) and len(test.ops) == 1:
-        l, o, r = test.left, test.ops[0], test.comparators[0]
-        if (is_len(l) and zero(r)) or (is_name(l) and empty_str(r)) or (zero(l) and is_len(r)) or (empty_str(l) and is_name(r)):
-            if isinstance(o, ast.Eq):
-                empty_when_true = True
-            elif isinstance(o, ast.NotEq):
-                empty_when_true = False
-            elif isinstance(o, ast.Gt) and is_len(l):
-                empty_when_true = False
-    elif is_name(test) or is_len(test):
-        empty_when_true = False
-    elif isinstance(test, ast.UnaryOp) and isinstance(test.op, ast.Not) and (is_name(test.operand) or is_len(test.operand)):
-        empty_when_true = True
-    if empty_when_true is None or empty_when_true != const_when_true:
-        raise Refuse("get_vals: cannot read `%s` as `<number> when the cell is empty, float(cell) otherwise`"
-                     % ast.get_source_segment(src, choices[0][0]))
-    empty = lit_of_text(ast.get_source_segment(src, num_branch))
-    return dict(rule=rule, nan_literal=nan_lit, strip_char=old, empty_value=empty, separator=seps[0])
+        choices = []
+        for n in ast.walk(gv):
+            if not isinstance(n, ast.IfExp):
+                continue
+            for num_branch, flt_branch, const_when_true in ((n.body, n.orelse, True), (n.orelse, n.body, False)):
+                v = float_of(flt_branch)
+                if number(num_branch) is not None and v is not None:
+                    choices.append((n.test, v, num_branch, const_when_true))
+        if len(choices) != 1:
+            raise Refuse("expected exactly one `<number> if <x is empty> else float(x)` (or the mirrored form), found %d"
+                         % len(choices))
+        test, var, num_branch, const_when_true = choices[0]
+
+        def is_name(n):
+            return isinstance(n, ast.Name) and n.id == var
+
+        def is_len(n):
+            return _is_call(n, "len") and len(n.args) == 1 and is_name(n.args[0])
+
+        def zero(n):
+            return isinstance(n, ast.Constant) and type(n.value) is int and n.value == 0
+
+        def empty_str(n):
+            return isinstance(n, ast.Constant) and n.value == ""
+
+        empty_when_true = None
+        if isinstance(test, ast.Compare) and len(test.ops) == 1:
+            l, o, r = test.left, test.ops[0], test.comparators[0]
+            if (is_len(l) and zero(r)) or (is_name(l) and empty_str(r)) or (zero(l) and is_len(r)) or (empty_str(l) and is_name(r)):
+                if isinstance(o, ast.Eq):
+                    empty_when_true = True
+                elif isinstance(o, ast.NotEq):
+                    empty_when_true = False
+                elif isinstance(o, ast.Gt) and is_len(l):
+                    empty_when_true = False
+        elif is_name(test) or is_len(test):
+            empty_when_true = False
+        elif isinstance(test, ast.UnaryOp) and isinstance(test.op, ast.Not) and (is_name(test.operand) or is_len(test.operand)):
+            empty_when_true = True
+        if empty_when_true is None or empty_when_true != const_when_true:
+            raise Refuse("cannot read `%s` as `<number> when the cell is empty, float(cell) otherwise`"
+                         % ast.get_source_segment(src, choices[0][0]))
+        out["strip_char"] = old
+        out["empty_value"] = lit_of_text(ast.get_source_segment(src, num_branch))
+    except Refuse as e:
+        out["unread"]["numeric parse (get_vals)"] = str(e)
+    return out
 
 
 # ---------------------------------------------------------------------------
@@ -767,8 +870,21 @@ def presets_text(res):
     return "\n".join(L) + "\n"
 
 
+SPEC_DEFAULTS = dict(rule={"distinct": ("CGt", (1, 1)), "majority": ("CLt", (80, 100)), "nanshare": ("CLt", (75, 100))},
+                     nan_literal="nan", strip_char='"', empty_value=(0, 1), separator=",")
+
+
 def constants_text(res):
-    c = res["constants"]
+    c = dict(res["constants"])
+    unread = c.get("unread", {})
+    how = {}
+    for key, item in (("rule", "keep rule"), ("nan_literal", "keep rule"), ("strip_char", "numeric parse (get_vals)"),
+                      ("empty_value", "numeric parse (get_vals)"), ("separator", "separator")):
+        if c.get(key) is None:
+            c[key] = SPEC_DEFAULTS[key]
+            how[key] = "NOT READ from the source (code shape not recognised): value of the specification; held by the correspondence only"
+        else:
+            how[key] = "read from the source"
     r = c["rule"]
     L = ["(* GENERATED by tools/translate_presets.py from %s (class FeatureTransformerGeneric)." % RT,
          "   Do not edit: rewritten by every run of ./check C12 and by setup.sh. *)",
@@ -779,7 +895,8 @@ def constants_text(res):
          "(* construct_new_features emits a transformed column iff",
          "     (number of distinct rendered values) distinct_op distinct_rhs",
          "     and (count of the most frequent value / rows) maj_op max_maj_support",
-         "     and (count of nan_literal / rows) nan_op nan_prop_support *)",
+         "     and (count of nan_literal / rows) nan_op nan_prop_support",
+         "   -- %s *)" % how["rule"],
          "Definition distinct_op : cmp := %s." % r["distinct"][0],
          "Definition distinct_rhs : Q := %d # %d." % r["distinct"][1],
          "Definition maj_op : cmp := %s." % r["majority"][0],
@@ -788,11 +905,11 @@ def constants_text(res):
          "Definition nan_prop_support : Q := %d # %d." % r["nanshare"][1],
          "Definition nan_literal : str := %s%%N.  (* %s *)" % (coq_str(c["nan_literal"]), coq_comment(repr(c["nan_literal"]))),
          "",
-         "(* get_vals: characters removed from a cell, value of the empty cell *)",
+         "(* get_vals: character removed from a cell, value of the empty cell -- %s *)" % how["strip_char"],
          "Definition strip_char : N := %d%%N." % ord(c["strip_char"]),
          "Definition empty_value : Q := %d # %d." % c["empty_value"],
          "",
-         "(* __init__: separator of the preset list *)",
+         "(* separator of the preset list -- %s *)" % how["separator"],
          "Definition preset_separator : N := %d%%N." % ord(c["separator"])]
     return "\n".join(L) + "\n"
 
